@@ -509,6 +509,8 @@ fn big(a: &Args) {
         ("smh2_u64_fnv", 20000, 2), ("smh_f64_fnv", 30000, 1), ("ss_u32", 30000, 2),
         // very large sketches (beyond 2^16 positions)
         ("pmh3", 100000, 5), ("pmh3a", 70001, 3), ("pmh3", 60000, 6), ("pmh3a", 100003, 6), ("smh_f64_fnv", 70000, 2), ("smh2_u64_fnv", 66000, 3), ("ss_u16", 70000, 2),
+        // single precision at sizes where r + j is rounded in (almost) every item
+        ("smh_f32_fnv", 30000, 4), ("smh_f32_no", 70001, 6), ("smh_f32_fnv", 100003, 12), ("smh_f32_fnv", 20000, 200),
     ];
     if thorough {
         plan.push(("ss_u16", 4096, 1000000));
